@@ -46,6 +46,24 @@ def gen_registries(cfg, out, module="GenReg.tla"):
     return regs
 
 
+def model_check(out, module, cfg, expect_violation=False, timeout=3000):
+    """Model-check a design-level configuration (mechanism layer => declarative layer).
+    expect_violation: a negative control -- the configuration models a known-bad variant of the
+    algorithm and TLC must find the counterexample (shows the invariant is not vacuous)."""
+    r = C.tlc_model(module, cfg, timeout=timeout)
+    out.model_states += r.generated
+    out.model_distinct += r.distinct
+    out.model_runs.append({"module": module, "cfg": cfg, "generated": r.generated, "distinct": r.distinct,
+                           "ok": r.ok, "expected_violation": expect_violation, "wall_s": round(r.wall, 1)})
+    if expect_violation:
+        if r.ok or not r.violation:
+            raise C.ToolFailure("negative control %s/%s: TLC did not find the expected counterexample" % (module, cfg))
+        return r
+    if not r.ok:
+        raise ModelViolation(module, cfg, r.out)
+    return r
+
+
 class ModelViolation(Exception):
     def __init__(self, module, cfg, text):
         Exception.__init__(self, "%s/%s" % (module, cfg))
@@ -166,7 +184,7 @@ def execute_and_validate(pid, exe, script_objs, out, tag, trace_cfg, trace_modul
     return stats
 
 
-def selftest_corruption(exe, script_obj, out, mutate, label, trace_cfg, trace_module="TraceYomm2.tla"):
+def selftest_corruption(exe, script_obj, out, mutate, label, trace_cfg, trace_module="TraceYomm2.tla", must=True):
     """Negative control for the binding: execute one script, corrupt the recorded trace with
     `mutate(lines) -> lines` and require TLC to reject it."""
     sp, tp = run_dyn(exe, script_obj.text(), "selftest")
@@ -182,6 +200,8 @@ def selftest_corruption(exe, script_obj, out, mutate, label, trace_cfg, trace_mo
         f.writelines(new)
     _, rej1 = C.validate_trace(trace_module, trace_cfg, cp, parts=1)
     ok = (not rej0) and bool(rej1)
+    if not ok and not must:
+        return False     # this particular corruption happened to be harmless; the caller tries another script
     out.selftests.append({"label": label, "applied": True, "clean_accepted": not rej0, "corrupt_rejected": bool(rej1)})
     return ok
 
